@@ -149,6 +149,54 @@ pub struct W7b;
 /// ```
 pub struct W7c;
 
+/// W7d (C07): the reference handed to the closure of `AssetReadGuard::map`
+/// cannot be smuggled out of it (the bound is higher-ranked), so no reference
+/// to the value survives its guard.
+///
+/// ```compile_fail,E0521
+/// use assets_manager::{AssetCache, AssetReadGuard, source::Empty};
+/// let cache = AssetCache::with_source(Empty);
+/// let handle = cache.get_or_insert::<Vec<i32>>("a", vec![1]);
+/// let mut leaked: Option<&Vec<i32>> = None;
+/// let guard = AssetReadGuard::map(handle.read(), |v| { leaked = Some(v); &v[0] });
+/// drop(guard);
+/// let _ = leaked.map(|v| v.len());
+/// ```
+///
+/// ```
+/// use assets_manager::{AssetCache, AssetReadGuard, source::Empty};
+/// let cache = AssetCache::with_source(Empty);
+/// let handle = cache.get_or_insert::<Vec<i32>>("a", vec![1]);
+/// let mut leaked: Option<usize> = None;
+/// let guard = AssetReadGuard::map(handle.read(), |v| { leaked = Some(v.len()); &v[0] });
+/// drop(guard);
+/// let _ = leaked;
+/// ```
+pub struct W7d;
+
+/// W7e (C07): the same for `try_map`.
+///
+/// ```compile_fail,E0521
+/// use assets_manager::{AssetCache, AssetReadGuard, source::Empty};
+/// let cache = AssetCache::with_source(Empty);
+/// let handle = cache.get_or_insert::<Vec<i32>>("a", vec![1]);
+/// let mut leaked: Option<&Vec<i32>> = None;
+/// let guard = AssetReadGuard::try_map(handle.read(), |v| { leaked = Some(v); v.first() });
+/// drop(guard);
+/// let _ = leaked.map(|v| v.len());
+/// ```
+///
+/// ```
+/// use assets_manager::{AssetCache, AssetReadGuard, source::Empty};
+/// let cache = AssetCache::with_source(Empty);
+/// let handle = cache.get_or_insert::<Vec<i32>>("a", vec![1]);
+/// let mut leaked: Option<usize> = None;
+/// let guard = AssetReadGuard::try_map(handle.read(), |v| { leaked = Some(v.len()); v.first() });
+/// drop(guard);
+/// let _ = leaked;
+/// ```
+pub struct W7e;
+
 /// W10a (C10): `Handle::get` does not exist for a reloadable type.
 ///
 /// ```compile_fail,E0599
